@@ -288,14 +288,12 @@ def run(scn):
         violate("at-least-one-season-or-rejection", None, n, ">=1")
         return res
     if scn["thermal"]:
-        w = model._weather
+        wdf = S.make_weather(spec).set_index("Date")
         tb, tu, meth = float(crop.Tbase), float(crop.Tupp), int(crop.GDDmethod)
-        sym = {}
-        wstart = start
 
         def thermal(date):
-            row = w[(date - wstart).days]
-            return ref_gdd(meth, tu, tb, float(row[1]), float(row[0]))
+            rec = wdf.loc[pd.Timestamp(date)]
+            return ref_gdd(meth, tu, tb, float(rec["MaxTemp"]), float(rec["MinTemp"]))
 
         maturity = float(crop.Maturity)
         ref, plantings, harvests = calendar_reference(start, end, scn["planting"], hmd, n, scn["off"], maturity, thermal=thermal, death=inj.observed)
